@@ -127,6 +127,17 @@ CLAIMED = {
         "technique": "Lean 4 proof (finite tables by decide, consistency by case analysis) + exhaustive differential correspondence",
         "design_ref": "DESIGN.md §6 C11",
     },
+    "C12": {
+        "text": "Partial proof: Lean 4 theorems (Props/C12.lean) show that every delimited format DataFormat.validate accepts yields a csv dialect fit for the round "
+                "trip (C12_goodcfg_of_accepted) and that, in the doublequote dialect, a quoted cell with arbitrary content (delimiters, quotes, CR, LF) is read back "
+                "exactly by the transcription of CPython's _csv reader fused with universal-newline splitting (C12_quoted_cell_partial). The lifting to rows/tables "
+                "and the escape-character dialect rest on the correspondence: all accepted combinations of 14 delimiters x 20 quotes x 2 escapes x 2 quoting modes "
+                "(x 4 line delimiters thorough) x tables built from the configured special characters, written and read by the real code and by the model.",
+        "note": "Trusted: Lean kernel; the Lean transcription of _csv writer/reader (validated against the real module on every case, including written text); "
+                "the table-level theorem is not proved yet, so the universal claim is carried by the proof only at cell level.",
+        "technique": "Lean 4 proof (partial: dialect admissibility + quoted-cell lemma) + exhaustive configuration x content correspondence",
+        "design_ref": "DESIGN.md §6 C12",
+    },
 }
 
 NOT_YET = {
